@@ -77,7 +77,7 @@ def cond_class(cond, body):
 
 def generate(repo):
     src_dir = os.path.join(repo, "src")
-    exits, loops = [], []
+    exits, loops, char_loops = [], [], []
     for root, _, files in os.walk(src_dir):
         for fn in sorted(files):
             if not (fn.endswith(".cpp") or fn.endswith(".h")):
@@ -105,6 +105,32 @@ def generate(repo):
                     exits.append({"file": rel, "line": i + 1, "func": f, "status": st, "diag": bool(DIAG.search(ctx)), "output_phase": rel == "output.cpp"})
             if not fn.endswith(".cpp"):
                 continue
+            if "TokenContext" in s:
+                for m in re.finditer(r"\bwhile\s*\(", s):
+                    e = balanced(s, m.end() - 1, "(", ")")
+                    cond = s[m.end():e]
+                    k = e + 1
+                    while k < len(s) and s[k] in " \n\t":
+                        k += 1
+                    if k >= len(s) or s[k] != "{":
+                        continue
+                    be = balanced(s, k, "{", "}")
+                    body = s[k:be + 1]
+                    if not re.search(r"\bctx\.(get|expect)\(", body + cond):
+                        continue
+                    c = re.sub(r"\s+", " ", cond).strip()
+                    if "ctx.more()" in cond or (re.search(r"ctx\.more\(\)", body) and re.search(r"\b(break|return)\b", body)):
+                        cls = "Guarded"
+                    elif re.fullmatch(r"(\(?\s*(ctx\.peek\(\d*\)\s*==\s*'[^']*'|unc_is\w+\(ctx\.peek\(\d*\)\)|is_\w+\(ctx\.peek\(\d*\)\)|CharTable::\w+\(ctx\.peek\(\d*\)\))\s*\)?\s*(\|\||&&)?\s*)+", c):
+                        cls = "Positive"        # only true for characters of a named class: false for the 0 that peek() returns at the end of the input
+                    elif re.fullmatch(r"\w+--(\s*>\s*0)?", c):
+                        cls = "Guarded"         # a counted loop
+                    else:
+                        cls = "Open"
+                    f = fn_at(funcs, m.start())
+                    if f is None:
+                        raise ValueError("%s:%d: character loop outside a recognised function" % (rel, s.count("\n", 0, m.start()) + 1))
+                    char_loops.append({"file": rel, "line": s.count("\n", 0, m.start()) + 1, "func": f, "cond": c, "cls": cls})
             for m in re.finditer(r"\bwhile\s*\(", s):
                 e = balanced(s, m.end() - 1, "(", ")")
                 cond = s[m.end():e]
@@ -148,8 +174,15 @@ def generate(repo):
     L.append(";\n".join("  (%s, %s, %s, %d) (* %s:%d *)" % (coq_bytes(x["file"]), coq_bytes(x["func"]), coq_bytes(x["cond"][:200]), code[x["cls"]], x["file"], x["line"])
                         for x in loops))
     L.append("].\n")
+    L.append("(* loops of the tokenizer that consume input characters: file, function, condition, class *)")
+    L.append("Definition char_loops : list (list Z * list Z * list Z * Z) := [")
+    L.append(";\n".join("  (%s, %s, %s, %d) (* %s:%d *)" % (coq_bytes(x["file"]), coq_bytes(x["func"]), coq_bytes(x["cond"][:200]), code[x["cls"]], x["file"], x["line"])
+                        for x in char_loops))
+    L.append("].\n")
+    if len(char_loops) < 30:
+        raise ValueError("only %d character loops found in the tokenizer" % len(char_loops))
     from collections import Counter
-    info = {"exit_sites": len(exits), "statuses": dict(Counter(x["status"] for x in exits)), "undiagnosed": sum(1 for x in exits if not x["diag"]),
+    info = {"char_loops": len(char_loops), "char_loop_classes": dict(Counter(x["cls"] for x in char_loops)), "exit_sites": len(exits), "statuses": dict(Counter(x["status"] for x in exits)), "undiagnosed": sum(1 for x in exits if not x["diag"]),
             "loops": len(loops), "loop_classes": dict(Counter(x["cls"] for x in loops))}
     return {"file": OUT, "text": "\n".join(L), "info": info}
 
